@@ -13,7 +13,7 @@
 (* mapping that rebuilds every snapshot by running the code's own restore() *)
 (* the required number of times (Refinement below).                        *)
 (***************************************************************************)
-EXTENDS Integers, Sequences, FiniteSets, TLC, SequencesExt
+EXTENDS DeltaOps
 
 CONSTANTS MaxItems, MaxSnaps, MaxOps
 
@@ -22,60 +22,11 @@ VARIABLES items, popped, lengths, nops, nextv
 vars == <<items, popped, lengths, nops, nextv>>
 
 
-Front_(s)  == SubSeq(s, 1, Len(s) - 1)
 Min2(a, b) == IF a < b THEN a ELSE b
 
 Init == items = <<>> /\ popped = <<>> /\ lengths = <<>> /\ nops = 0 /\ nextv = 1
 
 Tick == nops < MaxOps /\ nops' = nops + 1
-
------------------------------------------------------------------------------
-\* Pure state transformers (records [items, popped, lengths]) so that the
-\* refinement mapping can run restore() repeatedly.
-
-St(i, p, l) == [items |-> i, popped |-> p, lengths |-> l]
-
-\* def pop(self)
-PopF(s) ==
-  LET size == Len(s.items)
-      v    == Last(s.items)
-  IN IF s.lengths # <<>> /\ size = Last(s.lengths)[2]
-     THEN St(Front_(s.items), Append(s.popped, v),
-             [s.lengths EXCEPT ![Len(s.lengths)] = <<@[1], @[2] - 1>>])
-     ELSE St(Front_(s.items), s.popped, s.lengths)
-
-\* def clear(self): while self.items: self.pop()
-RECURSIVE ClearF(_)
-ClearF(s) == IF s.items = <<>> THEN s ELSE ClearF(PopF(s))
-
-\* def restore(self)
-RestoreF(s) ==
-  IF s.lengths = <<>> THEN St(<<>>, s.popped, s.lengths)
-  ELSE LET ic   == Last(s.lengths)[1]
-           rc   == Last(s.lengths)[2]
-           kept == IF rc < Len(s.items) THEN SubSeq(s.items, 1, rc) ELSE s.items
-           rw   == ic - rc
-           ns   == Len(s.popped) - rw
-       IN IF ic > rc
-          THEN St(kept \o Reverse(SubSeq(s.popped, ns + 1, Len(s.popped))),
-                  SubSeq(s.popped, 1, ns), Front_(s.lengths))
-          ELSE St(kept, s.popped, Front_(s.lengths))
-
-\* def drop_snapshot(self)
-DropF(s) ==
-  IF s.lengths = <<>> THEN s
-  ELSE LET ic    == Last(s.lengths)[1]
-           rc    == Last(s.lengths)[2]
-           rest  == Front_(s.lengths)
-           start == Len(s.popped) - (ic - rc)          \* 0-based index of the inner segment
-       IN IF rest # <<>> /\ rc < Last(rest)[2]
-          THEN \* keep what was popped below the outer snapshot's low-water mark
-               LET orc == Last(rest)[2]
-                   cut == ic - orc                        \* entries above the outer mark
-               IN St(s.items,
-                     SubSeq(s.popped, 1, start) \o SubSeq(s.popped, start + cut + 1, Len(s.popped)),
-                     [rest EXCEPT ![Len(rest)] = <<@[1], rc>>])
-          ELSE St(s.items, SubSeq(s.popped, 1, start), rest)
 
 Cur == St(items, popped, lengths)
 Set(s) == items' = s.items /\ popped' = s.popped /\ lengths' = s.lengths
